@@ -5,6 +5,7 @@ PROP = dict(
     extract=["editor"],
     lean_targets=["Chewing.Props.C02"],
     runs=[dict(bin="editor"), dict(bin="editor", args=["--script", "c02"], tag="editor-c02-tab-overflow"),
+          dict(bin="editor", args=["--bfs", "all"], tag="editor-bfs", timeout=1500, timeout_thorough=20000),
           dict(bin="capi_props", tag="capi_props", args=["--histories", "300", "--calls", "40"], args_thorough=["--histories", "6000", "--calls", "40"])],
     scope=fn_scope("ed key", "ed commit", "ed select"),
     level="proof",
@@ -14,7 +15,7 @@ PROP = dict(
          "API calls and option changes in between; plus scripted histories (run editor-c02-tab-overflow): two crossing user "
          "phrases with pairwise different characters, Tab pressed 0..4 times at the end of the buffer, the limit at or below "
          "the length, then overflow by one more syllable / select(0) / Tab itself, or Enter / commit(); and a second scripted family: a syllable whose only (user) word is forgotten while it is buffered, glued by Tab to a neighbour that has words, then the same commit routes), recomputed by the model from the implementation's own complete "
-         "pre-state; distinct = distinct record text",
+         "pre-state; distinct = distinct record text Run editor-bfs (round 3, `editor --bfs all`): breadth-first exploration of the REAL editor on small closed configurations, one `ed` record per (reachable state, operation of the alphabet) with this property's oracle evaluated on every step; the configurations that closed are exhaustive ties (coverage.exhaustive_closed_worlds; Props/EditorTie.lean lifts them to every operation list over the alphabet), the others a breadth-first sample.",
     trusted_base=["hook H1 (Editor::verif_snapshot) is read-only; the layout and conversion answers of each step are recorded "
                   "through wrapper objects installed through the public constructors",
                   "oracle: display()/display_commit()/len() are called through the public API before and after each "
